@@ -56,8 +56,10 @@ Fixpoint obsl_eqb (a b : list obs_call) : bool :=
 
 (* the behavioural probe: when the model's final state is idle (nothing pending, flag clear) the runtime must
    behave as the fresh twin that replayed only the completed effects *)
-Definition check_with (fixed : bool) (c : tcase) : bool :=
-  obsl_eqb (c_obs c) (run_model fixed c) && implb (idle_full (final_state fixed c)) (c_twin c).
+Definition check_run (c : tcase) (r : list obs_call * state) : bool :=
+  obsl_eqb (c_obs c) (fst r) && implb (idle_full (snd r)) (c_twin c).
+Definition run_both (fixed : bool) (c : tcase) := run_hist (c_lim c) (c_faults c) fixed (c_ops c) init.
+Definition check_with (fixed : bool) (c : tcase) : bool := check_run c (run_both fixed c).
 
 Fixpoint mismatch_from (f : tcase -> bool) (i : N) (cs : list tcase) : list N :=
   match cs with
@@ -65,6 +67,19 @@ Fixpoint mismatch_from (f : tcase -> bool) (i : N) (cs : list tcase) : list N :=
   | c :: r => if f c then mismatch_from f (N.succ i) r else i :: mismatch_from f (N.succ i) r
   end.
 Definition mismatch_ids := mismatch_from (check_with true) 0%N.
+
+(* verdict per case: 0 = the implementation agrees with S; 1 = it disagrees with S and is not explained by I;
+   100 + mask = it disagrees with S, agrees with I, and I ran into the recorded deviations in mask
+   (1: F16, 2: F17, 4: F21, 8: F22) *)
+Definition has (n : nat) (l : list nat) : bool := existsb (Nat.eqb n) l.
+Definition mask_of (d : list nat) : N :=
+  ((if has 16 d then 1 else 0) + (if has 17 d then 2 else 0) + (if has 21 d then 4 else 0) + (if has 22 d then 8 else 0))%N.
+Definition verdict (c : tcase) : N :=
+  if check_with true c then 0%N
+  else let r := run_both false c in
+       if check_run c r then (if N.eqb (mask_of (leaked (snd r))) 0 then 1 else 100 + mask_of (leaked (snd r)))%N
+       else 1%N.
+Definition verdicts (cs : list tcase) : list N := map verdict cs.
 
 (* (S, I) *)
 Definition expected (c : tcase) := (run_model true c, idle_full (final_state true c), run_model false c, idle_full (final_state false c)).
